@@ -202,6 +202,33 @@ def run(ctx):
         results.append({"case": os.path.basename(d), "kind": "seeded-breaking" if expect else "seeded-neutralised", "fired": sorted({f.rule for f in fired}), "ok": ok})
         if not ok:
             problems.append(f"seeded change {os.path.basename(d)}: expected {'a violation' if expect else 'silence'}, rules fired: {sorted({f.rule for f in fired})}")
+    # behaviour-preserving refactorings written by independent sub-agents (seeded/benign): the property's own four per round, and every one that
+    # made this property's check raise a false alarm at first contact (seeded/benign/first_contact*.json) - all must stay silent
+    bdir = os.path.join(VERIF, "seeded", "benign")
+    wanted = {os.path.basename(d) for d in glob.glob(os.path.join(bdir, prop + "_r*"))}
+    for fc in glob.glob(os.path.join(bdir, "first_contact*.json")):
+        wanted |= set(json.load(open(fc)).get("first_contact_false_alarms", {}).get(prop, []))
+    for name in sorted(wanted):
+        patch = os.path.join(bdir, name, "patch.diff")
+        if not os.path.exists(patch):
+            continue
+        root = _scratch()
+        try:
+            r = subprocess.run(["patch", "-p1", "-s", "-f", "-i", patch], cwd=root, capture_output=True, text=True)
+            if r.returncode != 0:
+                results.append({"case": name, "kind": "benign-refactoring", "outcome": "stale (patch no longer applies)"})
+                continue
+            try:
+                fired = _new_violations(prop, root)
+                err = None
+            except AnalysisError as exc:
+                fired, err = [], str(exc)
+        finally:
+            shutil.rmtree(root, ignore_errors=True)
+        ok = not fired and err is None
+        results.append({"case": name, "kind": "benign-refactoring", "fired": sorted({f.rule for f in fired}), "ok": ok})
+        if not ok:
+            problems.append(f"behaviour-preserving refactoring {name}: " + (f"analysis error: {err[:160]}" if err else f"false alarm from {sorted({f.rule for f in fired})}: {fired[0].msg[:160]}"))
     for p, kind, label, rel, old, new in CASES:
         if p != prop:
             continue
@@ -228,6 +255,6 @@ def run(ctx):
     if problems:
         raise AnalysisError("checker self-test failed: " + "; ".join(problems))
     n_b = sum(1 for r in results if r.get("ok") and r["kind"] in ("break", "seeded-breaking"))
-    n_s = sum(1 for r in results if r.get("ok") and r["kind"] in ("benign", "seeded-neutralised"))
+    n_s = sum(1 for r in results if r.get("ok") and r["kind"] in ("benign", "seeded-neutralised", "benign-refactoring"))
     stale = sum(1 for r in results if "outcome" in r)
     return f"Self-test (thorough): {n_b} breaking variants detected, {n_s} behaviour-preserving variants silent, {stale} stale."
